@@ -42,7 +42,10 @@ class Instrument(object):
     tuning = None  # optional StringTuning object
 
     def __init__(self):
-        pass
+        # Every instrument owns the Notes of its range: the class only holds
+        # the default they are copied from
+        (low, high) = self.range
+        self.range = (Note(low), Note(high))
 
     def set_range(self, range):
         """Set the range of the instrument.
@@ -260,6 +263,7 @@ class MidiInstrument(Instrument):
     ]
 
     def __init__(self, name=""):
+        Instrument.__init__(self)
         self.name = name
 
 
